@@ -53,7 +53,7 @@ def strategy_(draw, tier):
         if c < 45:
             t = draw(st.sampled_from([DL, DL, DD, DD, FL, FD]))
             tgt = draw(st.integers(0, NT4 - 1))
-            ops.append(["create", t, tgt, ln, draw(st.integers(0, 99))])
+            ops.append(["create", t, tgt, ln, draw(st.integers(0, 99)), draw(st.integers(0, 5)) == 0])
             n += 1
         elif c < 65 and n:
             ops.append(["rewrite", draw(st.integers(0, n - 1)), ln, draw(st.integers(0, 99))])
@@ -153,7 +153,7 @@ def run_case(case):
             if k == "create":
                 ensure_an()
                 an_dirty = True
-                _, t, tgt, ln, seed = op
+                _, t, tgt, ln, seed = op[:5]
                 label = t in (DL, FL)
                 txt = text_for(seed, ln, label)
                 s = nslots
@@ -164,6 +164,13 @@ def run_case(case):
                       s, t, tgt)
                 else:
                     S("create", p.call("i", "ANcreatef", V("an"), t, bind="n%d" % s), s, t, None)
+                if len(op) > 5 and op[5]:
+                    # a second create of the same kind before the first new annotation is written: the library
+                    # refuses it (the same reference number would be handed out); nothing may change by that
+                    if t in (DL, DD):
+                        S("create2", p.call("i", "ANcreate", V("an"), TARGETS[tgt][0], TARGETS[tgt][1], t))
+                    else:
+                        S("create2", p.call("i", "ANcreatef", V("an"), t))
                 S("write", p.call("i", "ANwriteann", V("n%d" % s), txt if txt else b"", ln), s, txt)
                 cur_txt[s] = (t, txt)
                 S("idtr", p.call("i", "ANid2tagref", V("n%d" % s), Out(2, bind="at%d" % s), Out(2, bind="ar%d" % s)), s)
@@ -310,6 +317,13 @@ def run_case(case):
                 elif role == "ret0":
                     if r.ret != 0:
                         raise Fail("%s failed" % a[0], ret=r.ret)
+                elif role == "create2":
+                    if r.ret != -1:
+                        # accepted: an unwritten annotation now exists whose state the interface does not
+                        # define; the rest of this history is not judged
+                        labels.add("second_create_accepted")
+                        break
+                    labels.add("second_create_refused")
                 elif role == "create":
                     if r.ret == -1:
                         raise Fail("ANcreate/ANcreatef failed", call=what)
